@@ -25,6 +25,7 @@ ASSUMPTIONS = [
     "CPython's GIL and queue.Queue's own lock are the trusted base: only the protocol is explored, not memory-model effects; a free-running pass on the real queue.Queue re-runs the same bodies as a sanity check only",
     "a blocking call with a timeout / non-blocking call is modelled as an always-enabled point that raises Empty/Full when executed while it cannot be served",
     "'labels-mv' grid points: a label set over two videos of different frame sizes (frames alternate between them); each frame must carry its own video index and original size",
+    "fault alphabet: a read that raises at frame k (every k), and 'metadata unavailable' (video.shape is None) for explicit ranges, alone or combined with a read fault",
     "bounds: N<=4, Q<=3, batch<=3 (quick); N<=6, Q<=4, batch<=4 (thorough); all (start,end) with 0<=start<=end<=N for VideoReader (plus None defaults)",
 ]
 
@@ -38,11 +39,12 @@ class Fault(Exception):
 class FakeVideo:
     """Duck-typed sio.Video: frame i is an (H, W, 1) uint8 array filled with value 10+i."""
 
-    def __init__(self, n, fault_at=None, hw=None):
+    def __init__(self, n, fault_at=None, hw=None, shape_ok=True):
         self.n = n
         self.fault_at = fault_at
         self.hw = hw or (H, W)
-        self.shape = (n, self.hw[0], self.hw[1], 1)
+        # shape_ok=False: the video's metadata is unavailable (sio.Video.shape is None when the backend cannot report it)
+        self.shape = (n, self.hw[0], self.hw[1], 1) if shape_ok else None
         self.reads = []
 
     def __len__(self):
@@ -226,7 +228,7 @@ def build(gp, s, real_queue=False):
         cl = reader_classes()
         vcls, lcls = cl["video"], cl["labels"]
     if kind == "video":
-        src = FakeVideo(n, fault)
+        src = FakeVideo(n, fault, shape_ok=gp.get("meta") != "noshape")
         rd = vcls(src, fq, start, end)
     else:
         src = FakeLabels(n, fault, multi=(kind == "labels-mv"))
@@ -358,6 +360,11 @@ def grid(tier):
                     lo, hi = (0 if st is None else st), (n if en is None else en)
                     for fault in [None] + list(range(lo, hi)):
                         pts.append({"kind": "video", "n": n, "start": st, "end": en, "q": q, "batch": b, "fault": fault})
+                # environment answer "metadata unavailable": explicit ranges on a video whose shape is None (frames readable,
+                # or failing at the first / a later read)
+                for (st, en) in [r for r in ranges if r[0] is not None][: (3 if tier == "quick" else None)]:
+                    for fault in [None] + list(range(st, en))[:2]:
+                        pts.append({"kind": "video", "n": n, "start": st, "end": en, "q": q, "batch": b, "fault": fault, "meta": "noshape"})
                 for kind in ("labels", "labels+inst", "labels-mv"):
                     for fault in [None] + list(range(n)):
                         pts.append({"kind": kind, "n": n, "start": None, "end": None, "q": q, "batch": b, "fault": fault})
